@@ -91,8 +91,13 @@ def idLe (a b : ID) : Bool := !(renderID b < renderID a)
 
 /-! ## rendering -/
 
+/-- A one-element slice of a string (the only slice-typed value session scripts use) is carried through the model as a
+string with this marker in front: the model's value type has no slices, and nothing in `session.go` looks inside a value. -/
+def sliceMark : String := "\u0001slice:"
+
 def renderVal : Val → String
-  | .str s => "s" ++ hexOfBytes s.toUTF8.toList
+  | .str s => if s.startsWith sliceMark then "l" ++ hexOfBytes (s.drop sliceMark.length).toString.toUTF8.toList
+              else "s" ++ hexOfBytes s.toUTF8.toList
   | .int n => "i" ++ toString n
   | .flt n => "f" ++ toString n
   | .bool b => if b then "b1" else "b0"
@@ -101,6 +106,7 @@ def renderVal : Val → String
 def parseVal (s : String) : Val :=
   match s.toList with
   | 's' :: r => .str (stringOfBytes (bytesOfHex r))
+  | 'l' :: r => .str (sliceMark ++ stringOfBytes (bytesOfHex r))
   | 'i' :: r => .int (String.ofList r).toInt!
   | 'f' :: r => .flt (String.ofList r).toInt!
   | 'b' :: r => .bool (r == ['1'])
